@@ -646,6 +646,9 @@ class Harness:
 
     def on_metric(self, event, attempt, sleep_s, tags):
         self.cur.trace.append(("metric", event, attempt, sleep_s, _tags(tags)))
+        if event == "budget_exhausted" and self.budget is not None:
+            # ground truth for "the window really is full", however the engine learnt it (refused consume(), remaining(), ...)
+            self.cur.trace.append(("budget_level", Budget.remaining(self.budget), self.now()))
         self.hook_fault("metric")
 
     def on_log(self, event, fields):
